@@ -204,6 +204,8 @@ func c13Apply(base *c13Base, m c13Mut) ([]byte, bool) {
 		return b[:m.Arg], true
 	case "empty":
 		return []byte{}, true
+	case "content-length":
+		return b, true
 	case "swap-with": // serve another resource's body instead
 		names := base.names()
 		if m.Arg >= len(names) {
@@ -561,6 +563,9 @@ func c13Mutations(base *c13Base, tier string) []c13Mut {
 		isPL := strings.HasSuffix(res, ".m3u8") || strings.Contains(res, ".m3u8@")
 		isInit := strings.HasSuffix(res, "_init")
 		out = append(out, c13Mut{Base: base.name, Res: res, Kind: "empty", Desc: "empty body"})
+		for i, d := range []string{"2^62", "2^40", "one byte more than the body", "unknown"} {
+			out = append(out, c13Mut{Base: base.name, Res: res, Kind: "content-length", Arg: i, Desc: "Content-Length announced as " + d})
+		}
 		for i := range names {
 			if names[i] != res {
 				out = append(out, c13Mut{Base: base.name, Res: res, Kind: "swap-with", Arg: i, Desc: "body of " + names[i]})
@@ -666,6 +671,10 @@ func c13RunCase(c *vh.Ctx, base *c13Base, m c13Mut) (sig, msg, outcome string) {
 			srv.mu.Unlock()
 		}
 		if name == m.Res {
+			if m.Kind == "content-length" {
+				// the announced length has nothing to do with what arrives
+				return srvResp{Status: 200, Body: mut, CL: []int64{1 << 62, 1 << 40, int64(len(mut)) + 1, -1}[m.Arg]}
+			}
 			return srvResp{Status: 200, Body: mut}
 		}
 		if b, ok := base.res[name]; ok {
